@@ -25,7 +25,9 @@ ASSUMPTIONS = ['"current settings" = constructor arguments (shorthand expanded, 
                'recompute_edges (decided by C16) applied to the previous table with every *_threshold lowered by r']
 
 FS, FR = 64, (6, 14)
-SIGS = {'S1': S.word_signal('aadaaazzaaaadaan'), 'S2': S.word_signal('bbnbbdabbbzbb')}
+SIGS = {'S1': S.word_signal('aadaaazzaaaadaan'), 'S2': S.word_signal('bbnbbdabbbzbb'),
+        'S3': S.sensitive_signal(0)}      # S3: table depends on the narrow-band filter length
+FEK_DEFAULT = {'filter_kwargs': {'n_cycles': 3}}
 CYC_DEFAULT = {'amp_fraction_threshold': 0., 'amp_consistency_threshold': .5, 'period_consistency_threshold': .5,
                'monotonicity_threshold': .8, 'min_n_cycles': 3}
 AMP_DEFAULT = {'burst_fraction_threshold': 1, 'min_n_cycles': 3}
@@ -49,7 +51,9 @@ def inits():
 
 
 def ops_for(method):
-    ops = [['fit', 'S1'], ['fit', 'S2'], ['setthr', 'min_n_cycles', 4], ['setthr', 'min_n_cycles', 1], ['load']]
+    ops = [['fit', 'S1'], ['fit', 'S3'], ['setthr', 'min_n_cycles', 4], ['setthr', 'min_n_cycles', 1], ['load'], ['setfek', 2]]
+    if _TIER[0] != 'quick':
+        ops.append(['fit', 'S2'])
     if method == 'cycles':
         ops += [['setthr', 'monotonicity_threshold', .4], ['edges', None], ['edges', .05]]
     else:
@@ -74,7 +78,21 @@ def freeze(o):
 def functional(sig, led):
     from bycycle.features import compute_features
     return compute_features(np.array(sig), FS, FR, led['center_extrema'], led['burst_method'],
-                            copy.deepcopy(led['burst_kwargs']), copy.deepcopy(led['thresholds']), None, True)
+                            copy.deepcopy(led['burst_kwargs']), copy.deepcopy(led['thresholds']),
+                            copy.deepcopy(led.get('find_extrema_kwargs')), True)
+
+
+def check_fresh_defaults(method):
+    """A newly constructed default object must carry the documented default settings, whatever was done to other
+    objects before (module-level defaults must not leak)."""
+    from bycycle import Bycycle, BycycleGroup
+    for cls in (Bycycle, BycycleGroup):
+        b = cls(burst_method=method)
+        exp_thr = CYC_DEFAULT if method == 'cycles' else AMP_DEFAULT
+        if freeze(b.thresholds) != freeze(exp_thr) or freeze(b.find_extrema_kwargs) != freeze(FEK_DEFAULT) or b.burst_kwargs != {}:
+            return ('default-leak', 'a freshly constructed %s() carries settings %s / %s / %s instead of the documented defaults'
+                    % (cls.__name__, b.thresholds, b.find_extrema_kwargs, b.burst_kwargs))
+    return None
 
 
 def build(init, hist):
@@ -83,7 +101,8 @@ def build(init, hist):
     from bycycle.burst import recompute_edges
     led = {'center_extrema': init['center_extrema'], 'burst_method': init['burst_method'],
            'thresholds': expand(copy.deepcopy(init['thresholds']), init['burst_method']),
-           'burst_kwargs': {} if init['burst_kwargs'] is None else copy.deepcopy(init['burst_kwargs'])}
+           'burst_kwargs': {} if init['burst_kwargs'] is None else copy.deepcopy(init['burst_kwargs']),
+           'find_extrema_kwargs': copy.deepcopy(FEK_DEFAULT)}
     bm = Bycycle(**copy.deepcopy(init))
     sid, table_kind = None, None
     for op in hist:
@@ -100,7 +119,8 @@ def build(init, hist):
             if dd:
                 return bm, led, sid, ('fit-vs-functional', 'after fit, df_features != compute_features with the current settings: ' + dd)
             fresh = Bycycle(center_extrema=led['center_extrema'], burst_method=led['burst_method'],
-                            burst_kwargs=copy.deepcopy(led['burst_kwargs']), thresholds=copy.deepcopy(led['thresholds']))
+                            burst_kwargs=copy.deepcopy(led['burst_kwargs']), thresholds=copy.deepcopy(led['thresholds']),
+                            find_extrema_kwargs=copy.deepcopy(led['find_extrema_kwargs']))
             fresh.fit(np.array(sig), FS, FR)
             dd = diff_tables(bm.df_features, fresh.df_features)
             if dd:
@@ -114,6 +134,9 @@ def build(init, hist):
                 return bm, led, sid, ('hidden-state', 'fit differs from a fresh object built from the live attributes: ' + dd)
             if freeze(bm.thresholds) != freeze(led['thresholds']):
                 return bm, led, sid, ('settings-drift', 'live thresholds %s != current settings %s' % (bm.thresholds, led['thresholds']))
+            if freeze(bm.find_extrema_kwargs) != freeze(led['find_extrema_kwargs']):
+                return bm, led, sid, ('settings-drift', 'live find_extrema_kwargs %s != current settings %s'
+                                      % (bm.find_extrema_kwargs, led['find_extrema_kwargs']))
             for c in bm.df_features.columns:
                 v = getattr(bm, c)
                 if not np.array_equal(np.asarray(v), bm.df_features[c].values, equal_nan=bm.df_features[c].dtype != bool):
@@ -128,6 +151,20 @@ def build(init, hist):
         elif kind == 'setthr':
             bm.thresholds[op[1]] = op[2]
             led['thresholds'][op[1]] = op[2]
+        elif kind == 'setfek':
+            bm.find_extrema_kwargs['filter_kwargs']['n_cycles'] = op[1]       # in-place edit of a nested setting
+            led['find_extrema_kwargs']['filter_kwargs']['n_cycles'] = op[1]
+            prob = check_fresh_defaults(led['burst_method'])
+            if prob:
+                return bm, led, sid, prob
+            # ... and a fresh default object still analyses the filter-sensitive signal with the default filter
+            d = Bycycle(thresholds=copy.deepcopy(led['thresholds']), burst_method=led['burst_method'])
+            d.fit(np.array(SIGS['S3']), FS, FR)
+            dd = diff_tables(d.df_features, functional(SIGS['S3'], dict(led, center_extrema='peak', burst_kwargs={},
+                                                                        find_extrema_kwargs=None)))
+            if dd:
+                return bm, led, sid, ('default-leak', 'a fresh default object fitted after an in-place settings edit on ANOTHER object '
+                                      'differs from compute_features with default filter settings: ' + dd)
         elif kind == 'setbk':
             bm.burst_kwargs[op[1]] = op[2]
             led['burst_kwargs'][op[1]] = op[2]
@@ -135,7 +172,7 @@ def build(init, hist):
             bm.burst_kwargs.pop(op[1], None)
             led['burst_kwargs'].pop(op[1], None)
         elif kind == 'load':
-            tab = functional(SIGS['S2'], dict(led, thresholds=expand(None, led['burst_method']),
+            tab = functional(SIGS['S2'], dict(led, thresholds=expand(None, led['burst_method']), find_extrema_kwargs=None,
                                               burst_kwargs={'amp_threshes': (.5, 1.)} if led['burst_method'] == 'amp' else {}))
             bm.load(tab.copy(), np.array(SIGS['S2']), FS, FR)
             sid, table_kind = 'S2-loaded', led['burst_method']
@@ -167,8 +204,8 @@ def build(init, hist):
 
 
 def canon(bm, led, sid):
-    return (freeze(bm.thresholds), freeze(bm.burst_kwargs), freeze(led['thresholds']), freeze(led['burst_kwargs']),
-            table_hash(bm.df_features), sid)
+    return (freeze(bm.thresholds), freeze(bm.burst_kwargs), freeze(bm.find_extrema_kwargs), freeze(led['thresholds']),
+            freeze(led['burst_kwargs']), freeze(led['find_extrema_kwargs']), table_hash(bm.df_features), sid)
 
 
 DEPTH = {'quick': 3, 'thorough': 5}
